@@ -196,15 +196,18 @@ theorem demo_frame : Frame demoOps := by
     exact ⟨le_refl _, wf, fun _ _ _ => rfl, fun x c hc => Or.inl hc⟩
 
 /-- … hence respect any region -/
-theorem demo_respects (S : List Ref) : Respects S demoOps := demo_frame.respects S
+theorem demo_respects (S : List Ref) : Respects (NoKept S) S demoOps := demo_frame.respects S
 
 /-! ### concrete states -/
 
-/-- five start containers (cells 0–4), each with one object below it (cells 5–9) -/
-def given : State Unit Nat :=
+/-- five start containers (cells 0–4), each with one object below it (cells 5–9); `s0` is the
+    operators' internal state -/
+def givenS {σ : Type} (s0 : σ) : State σ Nat :=
   { heap := [⟨10, [5]⟩, ⟨20, [6]⟩, ⟨30, [7]⟩, ⟨40, [8]⟩, ⟨50, [9]⟩, ⟨1, []⟩, ⟨2, []⟩, ⟨3, []⟩, ⟨4, []⟩, ⟨5, []⟩],
     n0 := 10, regs := fun _ => none, start := [some 0, some 1, some 2, some 3, some 4],
-    t := 0, rep := 3, ngen := none, ost := (), trace := [], bad := false }
+    t := 0, rep := 3, ngen := none, ost := s0, trace := [], bad := false }
+
+def given : State Unit Nat := givenS ()
 
 /-- a programme that still has to be initialised (one start container missing) -/
 def partly : State Unit Nat :=
@@ -212,22 +215,22 @@ def partly : State Unit Nat :=
     start := [some 0, some 1, none, some 2, some 3],
     t := 0, rep := 0, ngen := none, ost := (), trace := [], bad := false }
 
-theorem wfh_of_all (h : Heap (Cell Nat)) (hall : h.all (fun c => c.refs.all (fun r => decide (r < h.length))) = true) :
+theorem wfh_of_all {V : Type} (h : Heap (Cell V)) (hall : h.all (fun c => c.refs.all (fun r => decide (r < h.length))) = true) :
     WFH h := by
   intro a c hc r hr
   simp only [List.all_eq_true, decide_eq_true_eq] at hall
   exact hall c (List.mem_of_getElem? hc) r hr
 
-theorem region_lt_length {h : Heap (Cell Nat)} {S : List Ref} (wf : WFH h) (hS : ∀ s ∈ S, s < h.length) :
+theorem region_lt_length {V : Type} {h : Heap (Cell V)} {S : List Ref} (wf : WFH h) (hS : ∀ s ∈ S, s < h.length) :
     ∀ x, InReg h S x → x < h.length := by
   rintro x ⟨s, hs, hr⟩
   exact hr.valid wf (hS s hs)
 
-theorem iso_of_all_in {h : Heap (Cell Nat)} {S : List Ref} (hall : ∀ x, x < h.length → InReg h S x) : Iso h S := by
+theorem iso_of_all_in {V : Type} {h : Heap (Cell V)} {S : List Ref} (hall : ∀ x, x < h.length → InReg h S x) : Iso h S := by
   intro x c hc hx
   exact absurd (hall x (List.getElem?_eq_some_iff.mp hc).1) hx
 
-theorem iso_of_norefs {h : Heap (Cell Nat)} {S : List Ref} (hno : ∀ c ∈ h, c.refs = []) : Iso h S := by
+theorem iso_of_norefs {V : Type} {h : Heap (Cell V)} {S : List Ref} (hno : ∀ c ∈ h, c.refs = []) : Iso h S := by
   intro x c hc _ r hr
   rw [hno c (List.mem_of_getElem? hc)] at hr
   simp at hr
@@ -253,33 +256,44 @@ theorem given_valid : ∀ s ∈ [0, 1, 2, 3, 4], s < given.heap.length := by
   simp only [List.mem_cons, List.not_mem_nil, or_false] at hs
   rcases hs with h | h | h | h | h <;> (subst h; decide)
 
-theorem given_refs (ops : Ops Unit Nat) : startRefs ops given = [0, 1, 2, 3, 4] := by
-  simp [startRefs, given]
+theorem givenS_refs {σ : Type} (ops : Ops σ Nat) (s0 : σ) : startRefs ops (givenS s0) = [0, 1, 2, 3, 4] := by
+  simp [startRefs, givenS]
 
-theorem given_ready (ops : Ops Unit Nat) : Ready ops given := by
-  have hH : startHeap ops given = given.heap := by simp [startHeap, given]
-  have hN : startN0 ops given = 10 := by simp [startN0, given]
+theorem given_refs (ops : Ops Unit Nat) : startRefs ops given = [0, 1, 2, 3, 4] := givenS_refs ops ()
+
+theorem givenS_ready {σ : Type} (I : σ → Heap (Cell Nat) → Prop) (ops : Ops σ Nat) (s0 : σ)
+    (hI : I s0 given.heap) : Ready I ops (givenS s0) := by
+  have hH : startHeap ops (givenS s0) = given.heap := by simp [startHeap, givenS, given]
+  have hN : startN0 ops (givenS s0) = 10 := by simp [startN0, givenS]
+  have hO : startOst ops (givenS s0) = s0 := by simp [startOst, givenS]
   have hvalid : ∀ s ∈ [0, 1, 2, 3, 4], s < given.heap.length := by
     intro s hs
     simp only [List.mem_cons, List.not_mem_nil, or_false] at hs
     rcases hs with h | h | h | h | h <;> (subst h; decide)
-  refine ⟨rfl, rfl, by rw [given_refs]; rfl, by rw [hH], by rw [hH]; exact given_wf, by rw [hH, hN]; decide,
-    ?_, ?_, ?_⟩
-  · rw [hH, hN, given_refs]
+  refine ⟨rfl, rfl, by rw [givenS_refs]; rfl, by rw [hH]; exact le_refl _, by rw [hH]; exact given_wf,
+    by rw [hH, hN]; decide, ?_, ?_, ?_, by rw [hH, hO]; exact hI⟩
+  · rw [hH, hN, givenS_refs]
     exact region_lt_length given_wf hvalid
-  · rw [hH, given_refs]; exact iso_of_all_in given_all_in
-  · intro r a h; simp [given] at h
+  · rw [hH, givenS_refs]; exact iso_of_all_in given_all_in
+  · intro r a h; simp [givenS] at h
+
+theorem given_ready (ops : Ops Unit Nat) : Ready (NoKept [0, 1, 2, 3, 4]) ops given :=
+  givenS_ready _ ops () (noKept _ _ _)
+
+theorem givenS_good {σ : Type} (I : σ → Heap (Cell Nat) → Prop) (s0 : σ) (hI : I s0 given.heap) (d : Nat) :
+    Good I d [0, 1, 2, 3, 4] (vals d given.heap [0, 1, 2, 3, 4]) (givenS s0) := by
+  have hvalid : ∀ s ∈ [0, 1, 2, 3, 4], s < given.heap.length := by
+    intro s hs
+    simp only [List.mem_cons, List.not_mem_nil, or_false] at hs
+    rcases hs with h | h | h | h | h <;> (subst h; decide)
+  refine ⟨rfl, rfl, given_wf, by simp [givenS], region_lt_length given_wf hvalid, iso_of_all_in given_all_in, rfl, ?_, hI⟩
+  intro r a h; simp [givenS] at h
 
 theorem given_good (d : Nat) :
-    Good d [0, 1, 2, 3, 4] (vals d given.heap [0, 1, 2, 3, 4]) given := by
-  have hvalid : ∀ s ∈ [0, 1, 2, 3, 4], s < given.heap.length := by
-    intro s hs
-    simp only [List.mem_cons, List.not_mem_nil, or_false] at hs
-    rcases hs with h | h | h | h | h <;> (subst h; decide)
-  refine ⟨rfl, rfl, given_wf, by decide, region_lt_length given_wf hvalid, iso_of_all_in given_all_in, rfl, ?_⟩
-  intro r a h; simp [given] at h
+    Good (NoKept [0, 1, 2, 3, 4]) d [0, 1, 2, 3, 4] (vals d given.heap [0, 1, 2, 3, 4]) given :=
+  givenS_good _ () (noKept _ _ _) d
 
-theorem partly_ready : Ready demoOps partly := by
+theorem partly_ready : Ready (NoKept [4, 5, 6, 7, 8]) demoOps partly := by
   have hall : partly.start.all Option.isSome = false := by decide
   have hH : startHeap demoOps partly =
       partly.heap ++ [⟨1, []⟩, ⟨2, []⟩, ⟨3, []⟩, ⟨4, []⟩, ⟨5, []⟩] := by simp [startHeap, hall, demoOps]
@@ -290,7 +304,8 @@ theorem partly_ready : Ready demoOps partly := by
     intro s hs
     simp only [List.mem_cons, List.not_mem_nil, or_false] at hs
     rcases hs with h | h | h | h | h <;> (subst h; decide)
-  refine ⟨rfl, rfl, by rw [hR]; rfl, by rw [hH]; simp, by rw [hH]; exact hwf, by rw [hH, hN]; decide, ?_, ?_, ?_⟩
+  refine ⟨rfl, rfl, by rw [hR]; rfl, by rw [hH]; simp, by rw [hH]; exact hwf, by rw [hH, hN]; decide, ?_, ?_, ?_,
+    noKept _ _ _⟩
   · rw [hH, hN, hR]
     exact region_lt_length hwf hvalid
   · rw [hH, hR]
